@@ -49,7 +49,7 @@ func Spec(id, tier string) *core.CheckSpec {
 			{Engine: "schedsim", Label: "sync-pool", Seconds: sec(6, 100), Opt: core.Options{Params: p("comp", "syncpool")}},
 			{Engine: "schedsim", Label: "slashing-exit-pools", Seconds: sec(6, 100), Opt: core.Options{Params: p("comp", "misc")}},
 		}
-	case "C08", "C14", "C15", "C05", "C04":
+	case "C08", "C12", "C14", "C15", "C05", "C04":
 		cs.Batches = []core.Batch{
 			{Engine: "chainsim", Label: "swarm", Seconds: sec(45, 600), Opt: core.Options{}},
 			{Engine: "chainsim", Label: "late-forks", Seconds: sec(25, 300), Opt: core.Options{Params: p("forks", "late")}},
